@@ -347,3 +347,261 @@ func scenarioCrossRole() []caseOut {
 	}
 	return a.outs([]string{"case/directed", "directed/cross-role-justification-replay"})
 }
+
+// exchange: the victims deliver each other's (and their own) prepares and commits for (round, root)
+func (a *advSim) exchange(victims []*SimNode, round specqbft.Round, root [32]byte) {
+	for _, nd := range victims {
+		a.deliverWhere(nd, func(m *specqbft.SignedMessage) bool {
+			return isT(specqbft.PrepareMsgType, round)(m) && m.Message.Root == root
+		})
+	}
+	for _, nd := range victims {
+		a.deliverWhere(nd, func(m *specqbft.SignedMessage) bool {
+			return isT(specqbft.CommitMsgType, round)(m) && m.Message.Root == root
+		})
+	}
+}
+
+func wireRCs(a *advSim, round specqbft.Round, from ...spectypes.OperatorID) []*specqbft.SignedMessage {
+	var out []*specqbft.SignedMessage
+	for _, id := range from {
+		for _, w := range a.wire {
+			if w.Msg != nil && isT(specqbft.RoundChangeMsgType, round)(w.Msg) && w.Msg.Signers[0] == id {
+				out = append(out, w.Msg)
+				break
+			}
+		}
+	}
+	return out
+}
+
+// scenarioStaleRoundJustification (seeded change C01-m1: embedded round-changes validated against THEIR OWN round): as
+// scenarioCrossRole, but the Byzantine round-3 leader justifies B with the correct operators' genuine unprepared round-changes
+// of the OLDER round 2. Unchanged tree: refused (…/rcNotValid/wrongRound).
+func scenarioStaleRoundJustification() []caseOut {
+	env := getEnv(4)
+	h := specqbft.Height(0)
+	a := newDirected(env, h, []spectypes.OperatorID{3}, false)
+	A, B := valueBytes(1), valueBytes(2)
+	a.startAll([][]byte{A, A, A, A})
+	n1, n2, n4 := a.node(1), a.node(2), a.node(4)
+	correct := []*SimNode{n1, n2, n4}
+	for _, nd := range correct {
+		a.timeoutOn(nd)
+	}
+	a.deliverWhere(n2, isT(specqbft.RoundChangeMsgType, 2))
+	for _, nd := range correct {
+		a.deliverWhere(nd, isT(specqbft.ProposalMsgType, 2))
+	}
+	for _, nd := range correct {
+		a.deliverWhere(nd, isT(specqbft.PrepareMsgType, 2))
+	}
+	a.deliverWhere(n1, isT(specqbft.CommitMsgType, 2)) // operator 1 decides A
+	a.timeoutOn(n2)
+	a.timeoutOn(n4)
+	victims := []*SimNode{n2, n4}
+	a.sendDirect(enc(a.f.proposal(3, 3, B, wireRCs(a, 2, 1, 2, 4), nil)), victims)
+	a.pushDecision(3, B, victims)
+	a.exchange(victims, 3, sha256.Sum256(B))
+	return a.outs([]string{"case/directed", "directed/stale-round-justification"})
+}
+
+// roundOnePartial: operator `leader` (correct) proposes A in round 1; the operators in `prepared` (with the Byzantine
+// prepare) reach the prepare quorum and commit; operator `decider` alone receives the commits (with the Byzantine one) and
+// decides A. `faultAt` ≠ 0: that operator's Broadcast of its commit returns an error AFTER the message left the node.
+func (a *advSim) roundOnePartial(A []byte, byz spectypes.OperatorID, all, prepared []*SimNode, decider *SimNode, faultAt spectypes.OperatorID) {
+	rA := sha256.Sum256(A)
+	for _, nd := range all {
+		a.deliverWhere(nd, isT(specqbft.ProposalMsgType, 1))
+	}
+	a.sendDirect(enc(a.f.prepare(byz, 1, rA)), prepared)
+	for _, nd := range prepared {
+		for { // one prepare at a time, so that the fault hits exactly the delivery that completes the quorum
+			a.distribute()
+			idx := -1
+			for _, i := range a.pending[nd.id] {
+				if w := a.wire[i]; w.Msg != nil && isT(specqbft.PrepareMsgType, 1)(w.Msg) {
+					idx = i
+					break
+				}
+			}
+			if idx < 0 {
+				break
+			}
+			var keep []int
+			for _, i := range a.pending[nd.id] {
+				if i != idx {
+					keep = append(keep, i)
+				}
+			}
+			a.pending[nd.id] = keep
+			a.done[nd.id] = append(a.done[nd.id], idx)
+			if nd.id == faultAt {
+				if inst := nd.c.ctrl.StoredInstances.FindInstance(a.h); inst != nil {
+					signers := map[spectypes.OperatorID]bool{}
+					for _, m := range inst.State.PrepareContainer.MessagesForRound(1) {
+						signers[m.Signers[0]] = true
+					}
+					if uint64(len(signers))+1 == a.env.q && !signers[a.wire[idx].Msg.Signers[0]] {
+						nd.c.nf = "a"
+					}
+				}
+			}
+			a.deliverTo(nd, a.wire[idx].Enc)
+		}
+	}
+	a.sendDirect(enc(a.f.commit(byz, 1, rA)), []*SimNode{decider})
+	a.deliverWhere(decider, isT(specqbft.CommitMsgType, 1))
+}
+
+// scenarioForgedKnownSigner (seeded change C01-m2: signature of an embedded round-change not verified when the container
+// already holds one of that signer and round): n=4, operator 2 Byzantine (leader of round 2). 1 and 3 prepare+commit A, only
+// 1 decides; 3 (locked on (1,A)) and 4 (unprepared) time out and hold each other's genuine round-changes; the leader proposes B
+// justified by 4's round-change, its own, and a FORGED unprepared round-change in the name of 3. Unchanged tree: refused
+// (…/rcNotValid/sigInvalid).
+func scenarioForgedKnownSigner() []caseOut {
+	env := getEnv(4)
+	h := specqbft.Height(0)
+	a := newDirected(env, h, []spectypes.OperatorID{2}, false)
+	A, B := valueBytes(1), valueBytes(2)
+	a.startAll([][]byte{A, A, A, A})
+	n1, n3, n4 := a.node(1), a.node(3), a.node(4)
+	a.roundOnePartial(A, 2, []*SimNode{n1, n3, n4}, []*SimNode{n1, n3}, n1, 0)
+	a.timeoutOn(n3)
+	a.timeoutOn(n4)
+	victims := []*SimNode{n3, n4}
+	for _, nd := range victims {
+		a.deliverWhere(nd, isT(specqbft.RoundChangeMsgType, 2))
+	}
+	rcs := append(wireRCs(a, 2, 4), a.f.roundChange(2, 2, 0, nil, nil), a.forgedUnpreparedRC(2, 3, 2))
+	a.sendDirect(enc(a.f.proposal(2, 2, B, rcs, nil)), victims)
+	a.pushDecision(2, B, victims)
+	a.exchange(victims, 2, sha256.Sum256(B))
+	return a.outs([]string{"case/directed", "directed/forged-round-change-of-known-signer"})
+}
+
+// scenarioCommitBroadcastFault (seeded change C01-m3: the lock is recorded only after the commit broadcast returned without
+// error): as above, but operator 3's own Broadcast of its commit returns an error after the message left the node, and the
+// Byzantine leader uses the GENUINE round-changes of 3 and 4. Unchanged tree: 3's round-change carries the lock (1,A), so B is
+// not justifiable (…/rcNotValid/hashMismatch).
+func scenarioCommitBroadcastFault() []caseOut {
+	env := getEnv(4)
+	h := specqbft.Height(0)
+	a := newDirected(env, h, []spectypes.OperatorID{2}, false)
+	A, B := valueBytes(1), valueBytes(2)
+	a.startAll([][]byte{A, A, A, A})
+	n1, n3, n4 := a.node(1), a.node(3), a.node(4)
+	a.roundOnePartial(A, 2, []*SimNode{n1, n3, n4}, []*SimNode{n1, n3}, n1, 3)
+	a.timeoutOn(n3)
+	a.timeoutOn(n4)
+	victims := []*SimNode{n3, n4}
+	rcs := append(wireRCs(a, 2, 3, 4), a.f.roundChange(2, 2, 0, nil, nil))
+	a.sendDirect(enc(a.f.proposal(2, 2, B, rcs, nil)), victims)
+	a.pushDecision(2, B, victims)
+	a.exchange(victims, 2, sha256.Sum256(B))
+	return a.outs([]string{"case/directed", "directed/commit-broadcast-fault-then-unlocked-round-change"})
+}
+
+// ---------------------------------------------------------------- directed liveness scenarios (seeded changes C07-m1 … m4)
+
+func (a *advSim) finishC07(tags []string, what, detail string) []caseOut {
+	used, why := a.continuation()
+	if used < 0 && why != "cutoff" {
+		a.violate("C07/no-decision-within-f+3-rounds"+a.wedgeCause()+a.suffix(), detail)
+	} else {
+		tags = append(tags, fmt.Sprintf("c07/%s-decided-after-%d-rounds", what, used))
+	}
+	return a.outs(tags)
+}
+
+// scenarioPulledThenOwnTimer (C07-m1), n=4, height 0 (leaders: round 4 → operator 4, round 5 → operator 1): operator 4 is
+// Byzantine. Nothing of round 1 is delivered. Operator 1 times out three times (round 4); its and the Byzantine round-change for
+// round 4 pull operators 2 and 3 from round 1 to round 4 (partial quorum). Then operator 4 is silent: round 4 has no leader, all
+// three correct operators need their OWN round timer — armed for round 4 — to reach round 5, whose leader is correct.
+func scenarioPulledThenOwnTimer() []caseOut {
+	env := getEnv(4)
+	a := newDirected(env, 0, []spectypes.OperatorID{4}, false)
+	V := valueBytes(1)
+	a.startAll([][]byte{V, V, V, V})
+	n1, n2, n3 := a.node(1), a.node(2), a.node(3)
+	drop := func(nd *SimNode) { a.distribute(); a.pending[nd.id] = nil }
+	for _, nd := range []*SimNode{n1, n2, n3} {
+		drop(nd) // round-1 traffic is lost (re-sent by the continuation)
+	}
+	a.timeoutOn(n1)
+	a.timeoutOn(n1)
+	a.timeoutOn(n1)
+	a.sendDirect(enc(a.f.roundChange(4, 4, 0, nil, nil)), []*SimNode{n2, n3})
+	for _, nd := range []*SimNode{n2, n3} {
+		a.deliverWhere(nd, isT(specqbft.RoundChangeMsgType, 4))
+	}
+	return a.finishC07([]string{"case/directed", "directed/pulled-by-f+1-then-own-timer"}, "pulled-then-own-timer",
+		"n=4, operator 4 Byzantine then silent: operators 2 and 3 were pulled to round 4 by f+1 round-changes, round 4 has a silent leader; the correct operators do not reach round 5 together")
+}
+
+// scenarioLaggardAfterOwnTimeout (C07-m2), n=4, height 0, operator 4 silent from the start: operator 3 timed out once (round 2,
+// its own round-change looped back to it), operators 1 and 2 timed out four times without hearing each other (round 5). Their
+// two round-changes for round 5 are f+1 announcements above operator 3's round: it must be pulled to round 5.
+func scenarioLaggardAfterOwnTimeout() []caseOut {
+	env := getEnv(4)
+	a := newDirected(env, 0, []spectypes.OperatorID{4}, false)
+	V := valueBytes(1)
+	a.startAll([][]byte{V, V, V, V})
+	n1, n2, n3 := a.node(1), a.node(2), a.node(3)
+	for _, nd := range []*SimNode{n1, n2, n3} {
+		a.distribute()
+		a.pending[nd.id] = nil
+	}
+	a.timeoutOn(n3)
+	a.deliverWhere(n3, func(m *specqbft.SignedMessage) bool {
+		return isT(specqbft.RoundChangeMsgType, 2)(m) && m.Signers[0] == 3
+	})
+	for k := 0; k < 4; k++ {
+		a.timeoutOn(n1)
+		a.timeoutOn(n2)
+	}
+	a.deliverWhere(n3, isT(specqbft.RoundChangeMsgType, 5))
+	return a.finishC07([]string{"case/directed", "directed/laggard-that-timed-out-once-pulled-by-f+1"}, "laggard-after-own-timeout",
+		"n=4, operator 4 silent: operator 3 (round 2) holds f+1 round-changes for round 5 of operators 1 and 2")
+}
+
+// scenarioFutureRoundProposalToLaggard (C07-m3 = C02-m2), n=4, height 0 (leader of round 2: operator 2), operator 4 Byzantine:
+// round-1 traffic is lost; operators 1 and 2 time out, operator 3 does not. With the Byzantine round-change the leader of round
+// 2 holds a quorum and proposes; the proposal reaches operator 3 (still in round 1) before any round-change does.
+func scenarioFutureRoundProposalToLaggard() []caseOut {
+	env := getEnv(4)
+	a := newDirected(env, 0, []spectypes.OperatorID{4}, false)
+	V := valueBytes(1)
+	a.startAll([][]byte{V, V, V, V})
+	n1, n2, n3 := a.node(1), a.node(2), a.node(3)
+	for _, nd := range []*SimNode{n1, n2, n3} {
+		a.distribute()
+		a.pending[nd.id] = nil
+	}
+	a.timeoutOn(n1)
+	a.timeoutOn(n2)
+	a.sendDirect(enc(a.f.roundChange(4, 2, 0, nil, nil)), []*SimNode{n2})
+	a.deliverWhere(n2, isT(specqbft.RoundChangeMsgType, 2))
+	a.deliverWhere(n3, isT(specqbft.ProposalMsgType, 2))
+	a.deliverWhere(n1, isT(specqbft.ProposalMsgType, 2))
+	return a.finishC07([]string{"case/directed", "directed/future-round-proposal-reaches-laggard-first"}, "future-round-proposal",
+		"n=4, operator 4 Byzantine then silent: the correct round-2 leader's proposal reached operator 3 while it was in round 1")
+}
+
+// scenarioTimeoutsUpToCutoff (C07-m4): n=4 and n=7, nothing is ever delivered; every correct operator's timer fires in every
+// round 1 … cut-off-1 (the step oracle C07/timeout-without-progress is evaluated at each) and once more at the cut-off.
+func scenarioTimeoutsUpToCutoff(n int, h specqbft.Height) []caseOut {
+	env := getEnv(n)
+	a := newDirected(env, h, []spectypes.OperatorID{spectypes.OperatorID(n)}, false)
+	vals := make([][]byte, n)
+	for i := range vals {
+		vals[i] = valueBytes(1 + i%2)
+	}
+	a.startAll(vals)
+	for k := 0; k < 15; k++ {
+		for _, nd := range a.honest() {
+			a.timeoutOn(nd)
+		}
+	}
+	return a.outs([]string{"case/directed", fmt.Sprintf("directed/timeouts-up-to-the-cut-off-n%d", n)})
+}
